@@ -91,6 +91,7 @@ struct State {
     uint64_t libc_points = 0;
     AccessObserver acc_obs = nullptr;
     const char* acc_lo = nullptr; const char* acc_hi = nullptr;
+    AccessObserver acc_obs2 = nullptr; const char* acc2_lo = nullptr; const char* acc2_hi = nullptr;
     SyncObserver sync_obs = nullptr;
 };
 static State* G = nullptr;
@@ -114,6 +115,7 @@ int64_t now_ns() { return G->now; }
 void advance_ns(int64_t d) { G->now += d; }
 void count_fault(int kind) { G->st.faults[kind]++; }
 void set_access_observer(AccessObserver o, const void* lo, const void* hi) { G->acc_obs = o; G->acc_lo = (const char*)lo; G->acc_hi = (const char*)hi; }
+void set_access_observer2(AccessObserver o, const void* lo, const void* hi) { G->acc_obs2 = o; G->acc2_lo = (const char*)lo; G->acc2_hi = (const char*)hi; }
 void set_sync_observer(SyncObserver o) { G->sync_obs = o; }
 
 uint32_t logical_id(const void* p) {
@@ -340,11 +342,21 @@ void yield(int kind, uint64_t obj) {
     schedule(kind, obj);
 }
 
+// sanitizer coverage also instruments the load/store instruction an atomic builtin becomes: the callback that follows an
+// intercepted atomic load/store of the same address belongs to that atomic access and is not a plain access of its own
+static __thread const void* tls_atomic_pending = nullptr;
+static __thread int tls_atomic_pending_age = 0;
 void mem_event(const void* addr, int size, bool is_write) {
     if (!simulating()) return;
+    if (tls_atomic_pending) {
+        // (the pointer expression is evaluated again for the builtin, which may load the base pointer in between)
+        if (tls_atomic_pending == addr) { tls_atomic_pending = nullptr; return; }
+        if (++tls_atomic_pending_age > 4) tls_atomic_pending = nullptr;
+    }
     State& g = *G;
     g.st.mem_events++;
     if (g.acc_obs && (const char*)addr < g.acc_hi && (const char*)addr + size > g.acc_lo) g.acc_obs(tls_task, addr, size, is_write, false);
+    if (g.acc_obs2 && (const char*)addr < g.acc2_hi && (const char*)addr + size > g.acc2_lo) g.acc_obs2(tls_task, addr, size, is_write, false);
     if (--g.countdown > 0) return;
     sample_countdown();
     count_fault(F_PREEMPT_MEM);
@@ -363,6 +375,7 @@ void atomic_event(const void* addr, int size, int kind) {
     State& g = *G;
     g.st.mem_events++;
     if (g.acc_obs && (const char*)addr < g.acc_hi && (const char*)addr + size > g.acc_lo) g.acc_obs(tls_task, addr, size, kind != 0, true);
+    if (g.acc_obs2 && (const char*)addr < g.acc2_hi && (const char*)addr + size > g.acc2_lo) g.acc_obs2(tls_task, addr, size, kind != 0, true);
     // an atomic is a synchronisation point: always a scheduling point
     schedule(Y_ATOMIC, 0);
     // read-modify-write operations and fences drain the task's own store buffer before they execute
@@ -373,9 +386,10 @@ int atomic_store(void* addr, int size, uint64_t v, int order) {
     State& g = *G;
     g.st.mem_events++;
     if (g.acc_obs && (const char*)addr < g.acc_hi && (const char*)addr + size > g.acc_lo) g.acc_obs(tls_task, addr, size, true, true);
+    if (g.acc_obs2 && (const char*)addr < g.acc2_hi && (const char*)addr + size > g.acc2_lo) g.acc_obs2(tls_task, addr, size, true, true);
     schedule(Y_ATOMIC, 0);
     Task* me = g.tasks[g.cur];
-    if (order == __ATOMIC_SEQ_CST) { sb_flush(me); return 0; }   // the caller performs the store now
+    if (order == __ATOMIC_SEQ_CST) { sb_flush(me); tls_atomic_pending = addr; tls_atomic_pending_age = 0; return 0; }   // the caller performs the store now
     me->sb.push_back({addr, size, v});
     g.st.sb_buffered++; count_fault(F_STORE_DELAYED);
     return 1;
@@ -386,8 +400,10 @@ int atomic_load(const void* addr, int size, int order, uint64_t* out) {
     State& g = *G;
     g.st.mem_events++;
     if (g.acc_obs && (const char*)addr < g.acc_hi && (const char*)addr + size > g.acc_lo) g.acc_obs(tls_task, addr, size, false, true);
+    if (g.acc_obs2 && (const char*)addr < g.acc2_hi && (const char*)addr + size > g.acc2_lo) g.acc_obs2(tls_task, addr, size, false, true);
     schedule(Y_ATOMIC, 0);
     Task* me = g.tasks[g.cur];
+    tls_atomic_pending = addr; tls_atomic_pending_age = 0;
     if (me->sb.empty()) return 0;
     // own delayed stores are visible to the task itself: forward from the single containing entry, otherwise the
     // overlapping stores have to reach memory first
@@ -398,7 +414,7 @@ int atomic_load(const void* addr, int size, int order, uint64_t* out) {
     if (overlapping == 1 && (const char*)last->addr <= lo && (const char*)last->addr + last->size >= hi) {
         uint64_t v = last->v >> (8 * (lo - (const char*)last->addr));     // little-endian host
         if (size < 8) v &= (1ull << (8 * size)) - 1;
-        *out = v; g.st.sb_forwarded++;
+        *out = v; g.st.sb_forwarded++; tls_atomic_pending = nullptr;
         return 1;
     }
     sb_flush(me);
@@ -437,7 +453,7 @@ void begin(const Config& cfg, FatalHandler on_fatal) {
     g.tasks.clear(); g.mutexes.clear(); g.conds.clear(); g.ids.clear(); g.trace.clear();
     g.cfg = cfg; g.st = Stats(); g.on_fatal = on_fatal; g.trace_fp = fp;
     g.replay.swap(keep_replay); g.replay_pos = 0;
-    g.seq = 0; g.now = 0; g.acc_obs = nullptr; g.sync_obs = nullptr; g.atomic_depth = 0; g.libc_points = 0;
+    g.seq = 0; g.now = 0; g.acc_obs = nullptr; g.acc_obs2 = nullptr; g.sync_obs = nullptr; g.atomic_depth = 0; g.libc_points = 0;
     uint64_t s = cfg.seed ^ 0x5c4ed5c4ed5c4ed5ull;
     g.sched.seed(splitmix64(s));
     Task* t0 = new Task(); t0->id = 0; sem_init(&t0->sem, 0, 0); t0->prio = 1000000; g.tasks.push_back(t0);
